@@ -212,8 +212,9 @@ class Check:
         return res
 
     def guard(self, case, fn, *args, **kw):
-        """run one case; an exception raised from inside the implementation under test (innermost frame in the repo) is a
-        failure of the property on that case, anything else is an infrastructure error and propagates"""
+        """run one case; an exception raised while the implementation under test was executing (some frame of the traceback lies
+        in the repo: the exception came out of the package itself or out of a library the package called) is a failure of the
+        property on that case; an exception with no repo frame is an infrastructure error of the harness and propagates"""
         try:
             return fn(*args, **kw)
         except Infra:
@@ -221,8 +222,12 @@ class Check:
         except Exception as ex:
             tb = traceback.extract_tb(ex.__traceback__)
             repo = os.path.realpath(REPO)
-            if tb and os.path.realpath(tb[-1].filename).startswith(repo + os.sep):
-                where = f"{os.path.relpath(tb[-1].filename, repo)}:{tb[-1].lineno} in {tb[-1].name}"
+            inside = [f for f in tb if os.path.realpath(f.filename).startswith(repo + os.sep)]
+            if inside:
+                f = inside[-1]
+                where = f"{os.path.relpath(f.filename, repo)}:{f.lineno} in {f.name}"
+                if f is not tb[-1]:
+                    where += f" (raised in {os.path.basename(tb[-1].filename)}:{tb[-1].lineno} {tb[-1].name})"
                 self.fail("the implementation completes on an input inside the property's domain",
                           f"unexpected {type(ex).__name__}: {str(ex)[:160]} at {where}", case)
                 self.evaluations += 1
@@ -343,6 +348,10 @@ def load_known():
 def run_check(pid, run, tier, seed, replay=None):
     """entry used by harness/main.py"""
     ck = Check(pid, tier, seed, replay)
+    # Cell.__del__ / SmallEdge.__del__ unregister themselves from their vertices; when a whole mesh is let go (also at interpreter
+    # exit) they may find the back-reference already gone, which CPython reports as "Exception ignored in ..." on stderr.
+    # That is not an observable of any property; keep it off the console
+    sys.unraisablehook = lambda *_: None
     try:
         ck.lean_stage()
         run(ck)
